@@ -74,7 +74,7 @@ func (st *state) dispatch(toks []string) (string, string) {
 	switch toks[0] {
 	case "ck", "dk", "ev":
 		return codecOp(toks), ""
-	case "open", "inst", "close", "reopen", "gc", "flush", "sleep", "dump", "ldump", "api":
+	case "open", "inst", "close", "reopen", "gc", "flush", "sleep", "dump", "ldump", "failset", "api":
 		return st.apiOp(toks)
 	case "frag":
 		return fragOp(toks), ""
